@@ -2,45 +2,37 @@ package main
 
 import (
 	"fmt"
-	"io"
-	"log"
-	"os"
-	"time"
-	"syscall"
 
-	"github.com/facebookincubator/dns/dnsrocks/dnsdata/rdb"
-	"verifharness/corelib"
-	"verifharness/hlib"
+	spooky "github.com/dgryski/go-spooky"
 )
 
-func cpu() time.Duration {
-	var ru syscall.Rusage
-	syscall.Getrusage(syscall.RUSAGE_SELF, &ru)
-	return time.Duration(ru.Utime.Nano() + ru.Stime.Nano())
-}
-
 func main() {
-	scr := os.Args[1]
-	os.Setenv("TMPDIR", scr)
-	log.SetOutput(io.Discard)
-	r := hlib.NewRng(1, uint64(101))
-	g := corelib.Generate(r, "located", 1700000000)
-	in := scr + "/t.in"
-	os.WriteFile(in, corelib.FileText(g.Lines), 0644)
-	for i := 0; i < 3; i++ {
-		d := fmt.Sprintf("%s/r-%d", scr, i)
-		os.MkdirAll(d, 0755)
-		t, c := time.Now(), cpu()
-		_, err := rdb.CompileToSpecificRDBVersion(in, d, rdb.CompilationOptions{NumCPU: 1, UseV2KeySyntax: true, UseBuilder: false})
-		fmt.Println("rdb compile wall", time.Since(t), "cpu", cpu()-c, err)
-		t, c = time.Now(), cpu()
-		corelib.DumpRDB(d)
-		fmt.Println("dump wall", time.Since(t), "cpu", cpu()-c)
-		t, c = time.Now(), cpu()
-		x, err := rdb.NewReader(d)
-		fmt.Println("newreader wall", time.Since(t), "cpu", cpu()-c, err)
-		t, c = time.Now(), cpu()
-		x.Close()
-		fmt.Println("close wall", time.Since(t), "cpu", cpu()-c)
+	var bad []int
+	for n := 0; n < 600; n++ {
+		b := make([]byte, n)
+		for i := range b {
+			b[i] = byte(i*7 + n)
+		}
+		h := spooky.New(0, 0)
+		h.Write(b)
+		if h.Sum32() != spooky.Hash32(b) {
+			bad = append(bad, n)
+		}
 	}
+	fmt.Println("lengths where streaming != one-shot:", bad)
+	// writer pattern: Reset then Write
+	h := spooky.New(0, 0)
+	var bad2 []int
+	for n := 0; n < 600; n++ {
+		b := make([]byte, n)
+		for i := range b {
+			b[i] = byte(i*7 + n)
+		}
+		h.Reset()
+		h.Write(b)
+		if h.Sum32() != spooky.Hash32(b) {
+			bad2 = append(bad2, n)
+		}
+	}
+	fmt.Println("with a reused hasher (Reset):", bad2)
 }
